@@ -132,6 +132,9 @@ pub mod cmp {
     #[compound]
     pub struct Node(LTerm, Node, Node);
 
+    #[compound]
+    pub struct Wrap(LTerm, Option<Pair>);
+
     /// A `Node` is a newtype over `LTerm`; inside this module its field is accessible, which is
     /// how a typed field can be given an arbitrary term (variable, `[]`, nested node).
     pub fn node_wrap<U: User, E: Engine<U>>(t: LTerm<U, E>) -> Node<U, E> {
@@ -235,6 +238,14 @@ pub fn build_term(t: &Term, env: &Env) -> LT {
                     cmp::Node_compound::_InnerNode(b[0].clone(), l, r).into()
                 }
                 Kind::Tuple => (b[0].clone(), b[1].clone()).into(),
+                Kind::Wrap => {
+                    let opt: Option<cmp::Pair<U, E>> = match &a[1] {
+                        Term::Nil => None,
+                        Term::Cmp(Kind::Pair, p) => Some(cmp::Pair_compound::_InnerPair(build_term(&p[0], env), build_term(&p[1], env)).into()),
+                        other => panic!("generator bug: Wrap's Option field must be [] or a Pair, got {:?}", other),
+                    };
+                    cmp::Wrap_compound::_InnerWrap(b[0].clone(), opt).into()
+                }
             }
         }
     }
@@ -294,7 +305,17 @@ impl Unbuilder {
                 for child in obj.children() {
                     match child.as_term() {
                         Some(lt) => args.push(self.term(lt)),
-                        None => args.push(Term::Str("<object>".into())),
+                        None => {
+                            // a non-term field object: Option<T> (None -> [], Some(x) -> x)
+                            match child.type_name() {
+                                "None" => args.push(Term::Nil),
+                                "Some" => {
+                                    let inner: Vec<Term> = child.children().map(|c| match c.as_term() { Some(lt) => self.term(lt), None => Term::Str("<object>".into()) }).collect();
+                                    args.push(inner.into_iter().next().unwrap_or(Term::Str("<empty Some>".into())));
+                                }
+                                _ => args.push(Term::Str("<object>".into())),
+                            }
+                        }
                     }
                 }
                 match kind {
